@@ -97,6 +97,9 @@ func normTree(v any, exotic *bool) any {
 	case map[string]any:
 		o := make(map[string]any, len(x))
 		for k, e := range x {
+			if strings.Contains(k, "::") {
+				*exotic = true // "::" in a key of a provider-returned map is a path delimiter: not modelled
+			}
 			o[k] = normTree(e, exotic)
 		}
 		return o
